@@ -9,6 +9,7 @@ package model
 
 import (
 	"fmt"
+	"math"
 	"sort"
 	"strconv"
 	"strings"
@@ -334,6 +335,10 @@ func (c chk) number(f float64) error {
 func FloatEq(a, b float64) bool {
 	if a == b {
 		return true
+	}
+	if math.IsInf(a, 0) || math.IsInf(b, 0) || math.IsNaN(a) || math.IsNaN(b) {
+		// (an infinity is only equal to itself: the relative tolerance below would accept anything next to it)
+		return false
 	}
 	d := a - b
 	if d < 0 {
